@@ -30,6 +30,14 @@ SUB_CALLERS = {
     "vf_st": ["{ vf_st(RsV, RtV); }", "{ if (PuV) { vf_st(RsV, 1); } }"],
     "vf_ldx": ["{ RdV = vf_ldx(RsV); }", "{ RdV = vf_ldx(RsV) + vf_ldx(RtV); }"],
 }
+WARMUP_BIG = "{ int32_t wq = RsV; RdV = wq++ + wq++ + wq++ + wq++ + wq++ + wq++ + wq++ + wq++; }"     # +8 temporaries
+WARMUP_ONE = "{ int32_t wq = RsV; RdV = wq++; }"                                                     # +1
+# behaviours with several temporaries, some of them without a parent statement
+MULTI_HYBRID = [
+    "{ i++; k++; }", "{ i++; j++; k++; RdV = i; }", "{ int32_t a1 = 0; int32_t b1 = 0; a1++; b1++; RdV = a1 + b1; }",
+    "{ RdV = clz32(RsV) + clo32(RtV); }", "{ int32_t t1 = RsV; RdV = t1++ + t1++ + t1++; }", "{ RdV = clz32(RsV) + RtV++; }",
+    "{ i++; RdV = clz32(RsV); k++; }",
+]
 # statements that are the same text once whitespace is removed, or differ in one token boundary
 STMT_TWINS = [
     ("{ int32_t t1 = RsV; RdV = t1-- - RtV; }", "{ int32_t t1 = RsV; RdV = t1 - --RtV; }"),
@@ -59,7 +67,7 @@ class HistEngine(EngineBase):
         self.shape_keys = sorted(self.shapes)
         self._focus = None
         shape_texts = [t for v in self.shapes.values() for t in v]
-        twin_texts = [t for pair in STMT_TWINS for t in pair]
+        twin_texts = [t for pair in STMT_TWINS for t in pair] + MULTI_HYBRID + [WARMUP_BIG, WARMUP_ONE]
         self.extra_texts = sorted(set(self.catalogue + self.failing + self.sub_callers + gen_beh.PARSE_ERRORS + shape_texts + twin_texts))
 
     def corpus_sample(self):
